@@ -10,7 +10,13 @@ SET, GET, GET1, DEL, CLR, LEN, RNG, NIL, MK, BRK = range(10)
 KIND_DECL = {
     "int": ("int64", "int64"), "str": ("string", "int64"), "f64": ("float64", "int64"), "any": ("any", "int64"),
     "arr": ("[2]int", "string"), "stc": ("skey", "int64"), "big": ("bigk", "bigk"),
+    # keys / elems at the 128-byte boundary between inline and indirect storage (abi.MapMaxKeyBytes/MapMaxElemBytes)
+    "k127": ("[127]byte", "int64"), "k128": ("[16]int64", "int64"), "k129": ("[129]byte", "int64"), "sk128": ("s128", "int64"),
+    "v127": ("int64", "[127]byte"), "v128": ("int64", "[16]int64"), "v129": ("int64", "[129]byte"), "sv128": ("int64", "s128"),
 }
+BOUNDARY = ["k127", "k128", "k129", "sk128", "v127", "v128", "v129", "sv128"]
+_MK = {"[127]byte": "mkb127", "[16]int64": "mk16", "[129]byte": "mkb129", "s128": "mks128"}
+_NUM = {"[127]byte": "numb127", "[16]int64": "num16", "[129]byte": "numb129", "s128": "nums128"}
 
 
 def f64bits(x):
@@ -60,6 +66,14 @@ def e2e_universe(rng, kind, n):
     elif kind == "big":
         for v in dict.fromkeys(rng.randint(-1000, 100000) for _ in range(n)):
             ks.append(EKey("mkbig(%d)" % v, "g %d" % v, ("g", v)))
+    elif kind in BOUNDARY:
+        kt = KIND_DECL[kind][0]
+        vals = list(dict.fromkeys([1, 2, 255, 256, 65536] + [rng.randint(3, 10 ** 6) for _ in range(n)]))
+        for v in vals:
+            if kt == "int64":
+                ks.append(EKey(str(v), "i %d" % v, ("i", v)))
+            else:
+                ks.append(EKey("%s(%d)" % (_MK[kt], v), "K %d" % v, ("K", v)))
     elif kind == "any":
         ks = [EKey("nil", "n", ("nil",)), EKey("true", "b 1", ("b", 1)), EKey("false", "b 0", ("b", 0)),
               EKey("[]int{1}", "?", ("S",), unh=True), EKey("func() {}", "?", ("F",), unh=True),
@@ -87,7 +101,7 @@ def e2e_universe(rng, kind, n):
     return ks
 
 
-def gen_script(rng, kind, nops, with_clear=True, histories=1):
+def gen_script(rng, kind, nops, with_clear=True, histories=1, bulk=0):
     """-> (keys, pool of ops, top-level list of pool indices, bodies: id -> [segments of pool indices]).
     `histories` > 1: that many short histories, each on a fresh map (quick tier); the second one is an explicit
     clear + refill, every one ends with a full range loop."""
@@ -97,7 +111,7 @@ def gen_script(rng, kind, nops, with_clear=True, histories=1):
     else:
         target = rng.choice([12, 60, 200, 500])
         targets = [target]
-    keys = e2e_universe(rng, kind, int(target * 2.5) + 20)
+    keys = e2e_universe(rng, kind, max(int(target * 2.5) + 20, bulk + 50))
     pool, top, bodies = [], [], []
     val = [0]
 
@@ -197,6 +211,23 @@ def gen_script(rng, kind, nops, with_clear=True, histories=1):
                 range_loop(True)                                      # a range loop whose body mutates the map
         range_loop(False)
         top.append(new(LEN))
+    if bulk:
+        # a map with a few hundred entries, every one read back (content checked), ranged, half deleted, read again
+        top.append(new(MK, 0, rng.choice([0, bulk])))
+        ks = rng.sample(range(len(keys)), min(bulk, len(keys)))
+        for ki in ks:
+            val[0] += 1
+            top.append(new(SET, ki, val[0]))
+        top.append(new(LEN))
+        for ki in ks:
+            top.append(new(GET, ki))
+        range_loop(False)
+        for ki in ks[::2]:
+            top.append(new(DEL, ki))
+        top.append(new(LEN))
+        for ki in ks:
+            top.append(new(GET1, ki))
+        range_loop(False)
     return keys, pool, top, bodies
 
 
@@ -209,6 +240,85 @@ type skey struct {
 	B string
 }
 type bigk [17]int64
+type s128 struct {
+	A [15]int64
+	B int64
+}
+
+func mk16(v int64) (a [16]int64) {
+	for i := range a {
+		a[i] = v + int64(i)*1000003
+	}
+	return
+}
+func num16(a [16]int64) int64 {
+	if a == ([16]int64{}) {
+		return 0
+	}
+	if a != mk16(a[0]) {
+		return -1
+	}
+	return a[0]
+}
+func mks128(v int64) (s s128) {
+	a := mk16(v)
+	copy(s.A[:], a[:15])
+	s.B = a[15]
+	return
+}
+func nums128(s s128) int64 {
+	if s == (s128{}) {
+		return 0
+	}
+	if s != mks128(s.A[0]) {
+		return -1
+	}
+	return s.A[0]
+}
+func mkb127(v int64) (b [127]byte) {
+	for i := 0; i < 8; i++ {
+		b[i] = byte(v >> (8 * uint(i)))
+	}
+	for i := 8; i < len(b); i++ {
+		b[i] = byte(v*31 + int64(i))
+	}
+	return
+}
+func numb127(b [127]byte) int64 {
+	if b == ([127]byte{}) {
+		return 0
+	}
+	var v int64
+	for i := 7; i >= 0; i-- {
+		v = v<<8 | int64(b[i])
+	}
+	if b != mkb127(v) {
+		return -1
+	}
+	return v
+}
+func mkb129(v int64) (b [129]byte) {
+	for i := 0; i < 8; i++ {
+		b[i] = byte(v >> (8 * uint(i)))
+	}
+	for i := 8; i < len(b); i++ {
+		b[i] = byte(v*31 + int64(i))
+	}
+	return
+}
+func numb129(b [129]byte) int64 {
+	if b == ([129]byte{}) {
+		return 0
+	}
+	var v int64
+	for i := 7; i >= 0; i-- {
+		v = v<<8 | int64(b[i])
+	}
+	if b != mkb129(v) {
+		return -1
+	}
+	return v
+}
 
 func fb(b uint64) float64 { return *(*float64)(unsafe.Pointer(&b)) }
 func bits(f float64) uint64 { return *(*uint64)(unsafe.Pointer(&f)) }
@@ -265,8 +375,16 @@ SHOW = {
     "arr": 'print("a ", k[0], " ", k[1])', "stc": 'print("T ", k.A, " [", k.B, "]")',
     "big": 'if k != mkbig(k[0]) { print("g corrupt") } else { print("g ", k[0]) }',
 }
+for _k in BOUNDARY:
+    _kt = KIND_DECL[_k][0]
+    SHOW[_k] = 'print("i ", k)' if _kt == "int64" else 'print("K ", %s(k))' % _NUM[_kt]
 VAL_STORE = {"int64": "int64(v)", "string": 'vstr(v)', "bigk": "mkbig(int64(v))"}
+for _t in _MK:
+    VAL_STORE[_t] = "%s(int64(v))" % _MK[_t]
 VAL_SHOW = {"int64": "print(v)", "string": "print(vnum(v))", "bigk": 'if v == (bigk{}) { print(0) } else if v != mkbig(v[0]) { print("corrupt") } else { print(v[0]) }'}
+
+for _t in _NUM:
+    VAL_SHOW[_t] = "print(%s(v))" % _NUM[_t]
 
 GO_KIND = '''
 // ---------------------------------------------------------------- kind @KIND@
@@ -355,7 +473,7 @@ func run_@KIND@() {
 '''
 
 
-def gen_program(rng, kinds, nops, with_clear=True, histories=1):
+def gen_program(rng, kinds, nops, with_clear=True, histories=1, bulk=300):
     src = GO_PRELUDE + '''
 func vstr(v int32) string {
 	// "v" + decimal, without strconv
@@ -388,9 +506,19 @@ func vnum(s string) int64 {
 '''
     meta = {}
     for kind in kinds:
-        keys, pool, top, bodies = gen_script(rng, kind, nops, with_clear, histories)
+        if kind in BOUNDARY:
+            keys, pool, top, bodies = gen_script(rng, kind, max(60, nops // 3), with_clear, min(histories, 2), bulk)
+        else:
+            keys, pool, top, bodies = gen_script(rng, kind, nops, with_clear, histories)
         kt, vt = KIND_DECL[kind]
         t = GO_KIND.replace("@KIND@", kind).replace("@KT@", kt).replace("@VT@", vt)
+        if kind in BOUNDARY and kt != "int64" or kind == "big":
+            # build the key table in a loop at run time (hundreds of inlined constructor calls in a package-level
+            # initialiser make the -O2 compile very slow)
+            mk = "mkbig" if kind == "big" else _MK[kt]
+            nums = ", ".join(k.golit[len(mk) + 1:-1] for k in keys)
+            t = t.replace("var keys_%s = []%s{@KEYS@}" % (kind, kt),
+                          "var keys_%s = func() []%s {\n\tvs := []int64{%s}\n\tout := make([]%s, len(vs))\n\tfor i, v := range vs {\n\t\tout[i] = %s(v)\n\t}\n\treturn out\n}()" % (kind, kt, nums, kt, mk))
         if kind == "arr":
             # composite literals of arrays with negative elements are mis-initialised by this toolchain at -O2
             # (LLVM 14 + opaque-pointer shim; seen as {-5,1},{-4,0} -> {-5,-4},{0,0}); not a map matter: build the keys
